@@ -8,207 +8,12 @@ import (
 
 	"github.com/jsightapi/jsight-schema-go-library/errors"
 	"github.com/jsightapi/jsight-schema-go-library/internal/lexeme"
+	"github.com/jsightapi/jsight-schema-go-library/zzverif/gen"
 	"github.com/jsightapi/jsight-schema-go-library/zzverif/v"
 )
 
-// ---- reference RFC 8259 recogniser over a byte slice of concrete length
-
-func zzWS(c byte) bool { return c == ' ' || c == '\t' || c == '\n' || c == '\r' }
-func zzDig(c byte) bool { return '0' <= c && c <= '9' }
-func zzHex(c byte) bool {
-	return zzDig(c) || ('a' <= c && c <= 'f') || ('A' <= c && c <= 'F')
-}
-
-func zzSkipWS(b []byte, i int) int {
-	for i < len(b) && zzWS(b[i]) {
-		i++
-	}
-	return i
-}
-
-// zzLit matches a keyword at i.
-func zzLit(b []byte, i int, w string) (int, bool) {
-	if i+len(w) > len(b) {
-		return i, false
-	}
-	for k := 0; k < len(w); k++ {
-		if b[i+k] != w[k] {
-			return i, false
-		}
-	}
-	return i + len(w), true
-}
-
-func zzString(b []byte, i int) (int, bool) {
-	if i >= len(b) || b[i] != '"' {
-		return i, false
-	}
-	i++
-	for i < len(b) {
-		c := b[i]
-		switch {
-		case c == '"':
-			return i + 1, true
-		case c == '\\':
-			i++
-			if i >= len(b) {
-				return i, false
-			}
-			e := b[i]
-			switch {
-			case e == '"' || e == '\\' || e == '/' || e == 'b' || e == 'f' || e == 'n' || e == 'r' || e == 't':
-				i++
-			case e == 'u':
-				if i+4 >= len(b) {
-					return i, false
-				}
-				if !zzHex(b[i+1]) || !zzHex(b[i+2]) || !zzHex(b[i+3]) || !zzHex(b[i+4]) {
-					return i, false
-				}
-				i += 5
-			default:
-				return i, false
-			}
-		case c < 0x20:
-			return i, false
-		default:
-			i++
-		}
-	}
-	return i, false
-}
-
-// zzNumber matches a number maximally at i.
-func zzNumber(b []byte, i int) (int, bool) {
-	if i < len(b) && b[i] == '-' {
-		i++
-	}
-	if i >= len(b) {
-		return i, false
-	}
-	if b[i] == '0' {
-		i++
-	} else if '1' <= b[i] && b[i] <= '9' {
-		for i < len(b) && zzDig(b[i]) {
-			i++
-		}
-	} else {
-		return i, false
-	}
-	if i < len(b) && b[i] == '.' {
-		i++
-		if i >= len(b) || !zzDig(b[i]) {
-			return i, false
-		}
-		for i < len(b) && zzDig(b[i]) {
-			i++
-		}
-	}
-	if i < len(b) && (b[i] == 'e' || b[i] == 'E') {
-		i++
-		if i < len(b) && (b[i] == '+' || b[i] == '-') {
-			i++
-		}
-		if i >= len(b) || !zzDig(b[i]) {
-			return i, false
-		}
-		for i < len(b) && zzDig(b[i]) {
-			i++
-		}
-	}
-	return i, true
-}
-
-func zzValue(b []byte, i int, depth int) (int, bool) {
-	if i >= len(b) || depth > 40 {
-		return i, false
-	}
-	c := b[i]
-	switch {
-	case c == '{':
-		i = zzSkipWS(b, i+1)
-		if i < len(b) && b[i] == '}' {
-			return i + 1, true
-		}
-		for {
-			var ok bool
-			i, ok = zzString(b, i)
-			if !ok {
-				return i, false
-			}
-			i = zzSkipWS(b, i)
-			if i >= len(b) || b[i] != ':' {
-				return i, false
-			}
-			i = zzSkipWS(b, i+1)
-			i, ok = zzValue(b, i, depth+1)
-			if !ok {
-				return i, false
-			}
-			i = zzSkipWS(b, i)
-			if i >= len(b) {
-				return i, false
-			}
-			if b[i] == '}' {
-				return i + 1, true
-			}
-			if b[i] != ',' {
-				return i, false
-			}
-			i = zzSkipWS(b, i+1)
-		}
-	case c == '[':
-		i = zzSkipWS(b, i+1)
-		if i < len(b) && b[i] == ']' {
-			return i + 1, true
-		}
-		for {
-			var ok bool
-			i, ok = zzValue(b, i, depth+1)
-			if !ok {
-				return i, false
-			}
-			i = zzSkipWS(b, i)
-			if i >= len(b) {
-				return i, false
-			}
-			if b[i] == ']' {
-				return i + 1, true
-			}
-			if b[i] != ',' {
-				return i, false
-			}
-			i = zzSkipWS(b, i+1)
-		}
-	case c == '"':
-		return zzString(b, i)
-	case c == 't':
-		return zzLit(b, i, "true")
-	case c == 'f':
-		return zzLit(b, i, "false")
-	case c == 'n':
-		return zzLit(b, i, "null")
-	case c == '-' || zzDig(c):
-		return zzNumber(b, i)
-	}
-	return i, false
-}
-
-// zzJSONText: the whole input is one JSON value surrounded by optional white space.
-func zzJSONText(b []byte) bool {
-	i := zzSkipWS(b, 0)
-	i, ok := zzValue(b, i, 0)
-	if !ok {
-		return false
-	}
-	return zzSkipWS(b, i) == len(b)
-}
-
-// zzJSONPrefix: the input begins (after white space) with one complete JSON value.
-func zzJSONPrefix(b []byte) (int, bool) {
-	i := zzSkipWS(b, 0)
-	return zzValue(b, i, 0)
-}
+func zzJSONText(b []byte) bool          { return gen.JSONText(b) }
+func zzJSONPrefix(b []byte) (int, bool) { return gen.JSONPrefix(b) }
 
 // ---- harnesses
 
